@@ -585,8 +585,11 @@ fn short_text(ctx: &mut Ctx, input: &[u8]) -> CaseResult {
 fn mutated(ctx: &mut Ctx, tape: &[u8]) -> CaseResult {
     let es: &'static Vec<Entry> = ENTRIES.with(|e| *e);
     let (d, c) = ctx.tier.pick((3, 8), (6, 25));
-    let mut g = Gen::new(tape, d, c);
-    let k = g.t.choose(es.len());
+    // edits are planned from the head of the tape so they do not starve when the value eats the tape
+    let (plan, content) = split_plan(tape, 24);
+    let mut g = Gen::new(content, d, c);
+    let mut t = Tape::new(plan);
+    let k = t.choose(es.len());
     let e = &es[k];
     let v = match catch(|| (e.make)(&mut g)) {
         Ok(v) => v,
@@ -602,7 +605,6 @@ fn mutated(ctx: &mut Ctx, tape: &[u8]) -> CaseResult {
             return Ok(());
         }
     };
-    let mut t = g.t;
     let mut bytes = valid.clone();
     let n_edits = 1 + t.choose(4);
     let mut labels: Vec<&'static str> = Vec::new();
